@@ -204,6 +204,16 @@ pub fn fixed_probes() -> Vec<(&'static str, String, &'static [&'static str])> {
         ("result outlives the slice it was copied from", p("fn main() { let b = Bump::new(); let c; { let src = vec![1u8, 2, 3]; c = b.alloc_slice_copy(&src); } c[0] += 1; }"), &[]),
         ("result outlives the str it was copied from", p("fn main() { let b = Bump::new(); let c; { let src = String::from(\"abc\"); c = b.alloc_str(&src); } c.make_ascii_uppercase(); }"), &[]),
         ("clone result outlives its source", p("fn main() { let b = Bump::new(); let c; { let src = vec![String::from(\"a\")]; c = b.alloc_slice_clone(&src); } c[0].push('x'); }"), &[]),
+        ("Vec::extend by reference from a shorter-lived source", p("fn main() { let b = Bump::new(); let mut v = BVec::new_in(&b); { let src = vec![1u32, 2]; v.extend(&src); v.extend(src.iter()); } v.push(3); consume(v); }"), &[]),
+        ("Vec::extend by reference from a source declared after the vector", p("fn main() { let b = Bump::new(); let mut v: BVec<u8> = BVec::new_in(&b); let src = [1u8, 2, 3]; v.extend(&src[..]); v.extend(src.iter()); consume(v.len()); }"), &[]),
+        ("helper that copies a borrowed slice into an arena vector by reference", p("fn f<'b>(bump: &'b Bump, src: &[u32]) -> BVec<'b, u32> { let mut v = BVec::new_in(bump); v.extend(src); v.extend(src.iter()); v }\nfn main() { let b = Bump::new(); let v; { let src = vec![1u32, 2]; v = f(&b, &src); } consume(v); }"), &[]),
+        ("Vec::extend_from_slice(_copy / s_copy) from a shorter-lived source", p("fn main() { let b = Bump::new(); let mut v = BVec::new_in(&b); { let src = vec![1u32, 2]; v.extend_from_slice(&src); v.extend_from_slice_copy(&src); v.extend_from_slices_copy(&[&src[..], &src[..1]]); } v.push(3); consume(v); }"), &[]),
+        ("String built from shorter-lived text", p("fn main() { let b = Bump::new(); let mut s = BString::new_in(&b); let s2; { let t = String::from(\"xé\"); s.push_str(&t); s.insert_str(0, &t); s.extend(t.chars()); s.extend([t.as_str()].iter().cloned()); s.replace_range(.., &t); s2 = BString::from_str_in(&t, &b); } s.push('y'); consume((s, s2)); }"), &[]),
+        ("decoders from shorter-lived input", p("fn main() { let b = Bump::new(); let (x, y); { let bytes = vec![104u8, 105, 0xff]; let units = vec![104u16, 105]; x = BString::from_utf8_lossy_in(&bytes, &b); y = BString::from_utf16_in(&units, &b).unwrap(); } consume((x, y)); }"), &[]),
+        ("from_iter_in / collect_in / format! from shorter-lived sources", p("fn main() { let b = Bump::new(); let (v, w, f, bx); { let src = vec![String::from(\"a\")]; let n = 7; v = BVec::from_iter_in(src.iter().cloned(), &b); w = src.iter().map(|s| s.len()).collect_in::<BVec<usize>>(&b); f = bumpalo::format!(in &b, \"{}-{}\", src[0], n); bx = BBox::from_iter_in(src.iter().map(|s| s.len()), &b); } consume((v, w, f, bx)); }"), &[]),
+        ("slice fills from shorter-lived sources", p("fn main() { let b = Bump::new(); let (x, y, z); { let src = vec![String::from(\"a\"), String::from(\"b\")]; x = b.alloc_slice_fill_iter(src.iter().cloned()); y = b.alloc_slice_fill_clone(2, &src[0]); z = b.alloc_slice_try_fill_iter(src.iter().map(|s| Ok::<usize, ()>(s.len()))).unwrap(); } x[0].push('q'); y[1].push('r'); z[0] += 1; }"), &[]),
+        ("allocator_api2 Vec in an arena filled from a shorter-lived source", p("fn main() { let b = Bump::new(); let mut v = allocator_api2::vec::Vec::new_in(&b); { let src = vec![1u32, 2]; v.extend_from_slice(&src); v.extend(src.iter().copied()); } v.push(3); consume(v); }"), &[]),
+        ("Bump<8> and Bump<16> moved into threads, a pool behind a Mutex", p("fn main() { let a: Bump<8> = Bump::with_min_align(); let c = Bump::<16>::with_min_align_and_capacity(64); let pool = std::sync::Arc::new(std::sync::Mutex::new(vec![Bump::<4>::with_min_align()])); let p2 = pool.clone(); let h = std::thread::spawn(move || { a.alloc(1u8); c.alloc(2u8); p2.lock().unwrap()[0].alloc(3u8); drop((a, c)); }); h.join().unwrap(); is_send::<Bump<2>>(); is_send::<Bump<4>>(); }"), &[]),
         ("reset after all borrows ended, then reuse", p("fn main() { let mut b = Bump::new(); { let x = b.alloc(1u32); *x += 1; } b.reset(); let y = b.alloc(2u32); *y += 1; }"), &[]),
         ("chunk iteration after all borrows ended", p("fn main() { let mut b = Bump::new(); { let x = b.alloc(1u32); *x += 1; } let n: usize = b.iter_allocated_chunks().map(|c| c.len()).sum(); consume(n); b.alloc(1u8); }"), &[]),
         ("collections in an arena that outlives them", p("fn main() { let b = Bump::new(); { let mut v = BVec::new_in(&b); v.push(1); let mut s = BString::new_in(&b); s.push('x'); let bx = BBox::new_in(5, &b); consume((v, s, bx)); } let mut b = b; b.reset(); }"), &[]),
@@ -399,7 +409,7 @@ impl Engine for C05Engine {
         }
     }
     fn rule(&self) -> String {
-        "client programs are generated from a grammar: prelude + arena declaration (5 variants incl. Bump<8>/Bump<16>) + up to 5 legal filler statements + a carrier (47 ways to obtain an arena-backed reference, Vec, String, Box, leaked slice/str, iterator, Drain/Splice/DrainFilter, allocator-api2 container, chunk iterator or chunk item) + optionally ONE misuse (9 kinds) + a use of the carrier; plus 25 stand-alone programs (trait probes, returning arena data from the owning function, the accepted patterns). rustc --emit=metadata against the bumpalo rlib built from /repo's working tree is the oracle: every positive program must be accepted, every single-misuse program rejected with a borrow-checker/trait error. The systematic part compiles every applicable carrier x misuse pair once (exhaustive over the table); the random part adds proptest-chosen arena variants and fillers. non-trivial = a misuse program rejected as expected whose positive twin (same program without the misuse) was accepted; distinct = distinct (arena, carrier, misuse, fillers).".into()
+        "client programs are generated from a grammar: prelude + arena declaration (5 variants incl. Bump<8>/Bump<16>) + up to 5 legal filler statements + a carrier (47 ways to obtain an arena-backed reference, Vec, String, Box, leaked slice/str, iterator, Drain/Splice/DrainFilter, allocator-api2 container, chunk iterator or chunk item) + optionally ONE misuse (9 kinds) + a use of the carrier; plus 35 stand-alone programs (trait probes, returning arena data from the owning function, the accepted patterns). rustc --emit=metadata against the bumpalo rlib built from /repo's working tree is the oracle: every positive program must be accepted, every single-misuse program rejected with a borrow-checker/trait error. The systematic part compiles every applicable carrier x misuse pair once (exhaustive over the table); the random part adds proptest-chosen arena variants and fillers. non-trivial = a misuse program rejected as expected whose positive twin (same program without the misuse) was accepted; distinct = distinct (arena, carrier, misuse, fillers).".into()
     }
     fn assumptions(&self) -> Vec<String> {
         vec!["only the generated program family is decided; a misuse pattern outside the grammar is not".into(), "rustc (the repository's own toolchain) is trusted as the accept/reject oracle".into()]
